@@ -98,7 +98,7 @@ theorem mkTable_stripDiag (d : List (String × PV α)) (z : String) (hz : (z == 
   | error e => rfl
   | ok ios =>
     simp only [ex_bind_ok]
-    by_cases h1 : (!strictlyIncreasing ios) = true
+    by_cases h1 : (!strictlyIncreasing (ios.map nabs)) = true
     · simp only [if_pos h1]; rfl
     · simp only [if_neg h1]
       cases tableRows vi zz ios.length z with
@@ -206,6 +206,76 @@ theorem mkVdrop_reload {vd st : PV α} {p : Param α} (h : mkVdrop vd = .ok (p, 
     constructor
     · simp [mkVdrop, absArg, PV.num?, Param.dropDiag]
     · simp [nonZeroArg, PV.num?, isZ_abs]
+
+/-- the stored `rs` of a PMux rebuilds the same triple -/
+theorem mkRsMux_reload {rsA : PV α} {rr : α × Option (List α) × PV α} (h : mkRsMux rsA = .ok rr) :
+    mkRsMux rr.2.2 = .ok rr := by
+  cases rsA with
+  | list l =>
+    simp only [mkRsMux] at h ⊢
+    split_ifs at h with hl
+    · simp only [ex_pure, Except.ok.injEq] at h
+      subst h
+      simp [mkRsMux, hl]
+  | null => simp [mkRsMux, absArg, PV.num?] at h
+  | str s => simp [mkRsMux, absArg, PV.num?] at h
+  | dict d => simp [mkRsMux, absArg, PV.num?] at h
+  | bool b =>
+    simp only [mkRsMux] at h
+    obtain ⟨v, hv, h⟩ := ex_bind_eq_ok h
+    simp only [ex_pure, Except.ok.injEq] at h
+    subst h
+    obtain ⟨w, -, rfl⟩ := absArg_ok hv
+    simp [mkRsMux, absArg, PV.num?]
+  | int x =>
+    simp only [mkRsMux] at h
+    obtain ⟨v, hv, h⟩ := ex_bind_eq_ok h
+    simp only [ex_pure, Except.ok.injEq] at h
+    subst h
+    obtain ⟨w, -, rfl⟩ := absArg_ok hv
+    simp [mkRsMux, absArg, PV.num?]
+  | float x =>
+    simp only [mkRsMux] at h
+    obtain ⟨v, hv, h⟩ := ex_bind_eq_ok h
+    simp only [ex_pure, Except.ok.injEq] at h
+    subst h
+    obtain ⟨w, -, rfl⟩ := absArg_ok hv
+    simp [mkRsMux, absArg, PV.num?]
+
+/-- the stored `rs` of a MOSFET Rectifier rebuilds the same triple -/
+theorem mkRsRect_reload {rsA : PV α} {rr : α × Option (List α) × PV α} (h : mkRsRect rsA = .ok rr) :
+    mkRsRect rr.2.2 = .ok rr := by
+  cases rsA with
+  | list l =>
+    simp only [mkRsRect] at h ⊢
+    split_ifs at h with hl
+    · simp only [ex_pure, Except.ok.injEq] at h
+      subst h
+      simp [mkRsRect, hl]
+  | null => simp [mkRsRect, PV.isNumber] at h
+  | str s => simp [mkRsRect, PV.isNumber] at h
+  | dict d => simp [mkRsRect, PV.isNumber] at h
+  | bool b =>
+    simp only [mkRsRect, PV.isNumber, Bool.not_true, Bool.false_eq_true, if_false] at h
+    obtain ⟨v, hv, h⟩ := ex_bind_eq_ok h
+    simp only [ex_pure, Except.ok.injEq] at h
+    subst h
+    obtain ⟨w, -, rfl⟩ := absArg_ok hv
+    simp [mkRsRect, PV.isNumber, absArg, PV.num?]
+  | int x =>
+    simp only [mkRsRect, PV.isNumber, Bool.not_true, Bool.false_eq_true, if_false] at h
+    obtain ⟨v, hv, h⟩ := ex_bind_eq_ok h
+    simp only [ex_pure, Except.ok.injEq] at h
+    subst h
+    obtain ⟨w, -, rfl⟩ := absArg_ok hv
+    simp [mkRsRect, PV.isNumber, absArg, PV.num?]
+  | float x =>
+    simp only [mkRsRect, PV.isNumber, Bool.not_true, Bool.false_eq_true, if_false] at h
+    obtain ⟨v, hv, h⟩ := ex_bind_eq_ok h
+    simp only [ex_pure, Except.ok.injEq] at h
+    subst h
+    obtain ⟨w, -, rfl⟩ := absArg_ok hv
+    simp [mkRsRect, PV.isNumber, absArg, PV.num?]
 
 /-! ### limits -/
 
@@ -592,10 +662,11 @@ theorem reload_rectifier (n : String) (a : Args α) (c : Comp α) (h : mkComp .r
     obtain ⟨w2, -, rfl⟩ := absArg_ok h2
     have h5 : mkIg (stripDiag ig) = .ok par.dropDiag := by rw [mkIg_stripDiag]; exact map_ok _ h0
     clear h1 h2 h0
-    have hp : c.params = [("name", .str n), ("type", .str "mosfet"), ("rs", rsA), ("ig", stripDiag ig),
+    have h4 := mkRsRect_reload h4
+    have hp : c.params = [("name", .str n), ("type", .str "mosfet"), ("rs", rr.2.2), ("ig", stripDiag ig),
         ("iq", .float |w1|), ("rt", .float |w2|)] := by rw [← h]
     have hk : c.kind = .rectifier := by rw [← h]
-    refine loadChild_of_call _ n .rectifier ([("vdrop", .float 0), ("rs", rsA), ("ig", stripDiag ig),
+    refine loadChild_of_call _ n .rectifier ([("vdrop", .float 0), ("rs", rr.2.2), ("ig", stripDiag ig),
       ("iq", .float |w1|)] ++ [("limits", applims c)] ++ [("rt", .float |w2|)]) _ ?_ ?_
     · rw [childCall_dump _ n (by simp [hp, List.lookup])]
       simp [hp, hk, childBranch, Kind.ctype, CType.name, pyLookup_dict, getMand_dict_some, getOpt_dict, List.lookup]
@@ -644,7 +715,8 @@ theorem reload_pmux (n : String) (a : Args α) (c : Comp α) (h : mkComp .pmux n
   obtain ⟨w2, -, rfl⟩ := absArg_ok h2
   obtain ⟨w3, -, rfl⟩ := absArg_ok h3
   have h5 : mkIg (stripDiag ig) = .ok par.dropDiag := by rw [mkIg_stripDiag]; exact map_ok _ h0
-  refine ⟨rsA, stripDiag ig, .float |w2|, .float |w3|, by rw [← h], by rw [← h], by rw [← h], ?_⟩
+  have h4 := mkRsMux_reload h4
+  refine ⟨rr.2.2, stripDiag ig, .float |w2|, .float |w3|, by rw [← h], by rw [← h], by rw [← h], ?_⟩
   unfold mkComp
   simp only [req, arg, List.lookup, List.cons_append, List.nil_append]
   simp [abs_arg_float, checkLimits_applims, h5, h4, stripDiag_idem]
@@ -822,5 +894,363 @@ theorem loadChilds_ok (seen : List (Node α)) (entries : List (String × List (N
     loadChilds (seen.map rl) (childsDoc entries) = .ok ((seen ++ entries.flatMap (·.2)).map rl) := by
   rw [childsDoc_eq entries hn]
   exact entries_ok seen entries h
+
+/-! ### one top-level block -/
+
+structure SourceBlockOK (seen : List (Node α)) (b : Block α) : Prop where
+  built : Built b.root.comp
+  isSource : b.root.comp.kind = .source
+  notMux : b.isMux = false
+  noParents : b.root.parents = []
+  fresh : b.root.name ∉ seen.map Node.name
+  named : b.root.name ≠ ""
+  keys : (b.childs.map (·.1)).Nodup
+  entries : EntriesOK (seen ++ [b.root]) b.childs
+
+structure MuxBlockOK (seen : List (Node α)) (b : Block α) : Prop where
+  built : Built b.root.comp
+  isPMux : b.root.comp.kind = .pmux
+  isMux : b.isMux = true
+  fresh : b.root.name ∉ seen.map Node.name
+  named : b.root.name ≠ ""
+  keys : (b.childs.map (·.1)).Nodup
+  entries : EntriesOK (seen ++ [b.root]) b.childs
+  parentsNonempty : b.root.parents ≠ []
+  parentsNodup : b.root.parents.Nodup
+  parentsLoaded : ∀ p ∈ b.root.parents, ∃ pn ∈ seen, pn.name = p
+  parentsAccept : ∀ p ∈ b.root.parents, ∀ pn ∈ seen, pn.name = p → pn.comp.kind.ctype ≠ .LOAD
+  onlyMux : ∀ x ∈ seen, x.comp.kind ≠ .pmux
+
+theorem pySub_block (b : Block α) (key : String) (v : PV α)
+    (h : (dumpComp b.root.comp ++ [("childs", childsDoc b.childs)] ++
+      (if b.isMux then [("parents", PV.list (b.root.parents.map PV.str))] else [])).lookup key = some v) :
+    pySub (blockDoc b) key = .ok v := by
+  simp only [blockDoc, pySub, h]
+
+theorem nameTaken_fresh (seen : List (Node α)) (name : String) (hf : name ∉ seen.map Node.name)
+    (hn : name ≠ "") : nameTaken (seen.map rl) name = false := by
+  simp only [nameTaken, map_rl_names]
+  simp [hf, hn]
+
+theorem loadBlock_source (seen : List (Node α)) (b : Block α) (first : Bool) (hf : first = true → seen = [])
+    (h : SourceBlockOK seen b) :
+    loadBlock (seen.map rl) first b.root.name (blockDoc b) =
+      .ok ((seen ++ b.root :: b.childs.flatMap (·.2)).map rl) := by
+  obtain ⟨a, hb⟩ := h.built
+  rw [h.isSource] at hb
+  obtain ⟨vo, rs, hp, hk, hname, hmk⟩ := reload_source _ a _ hb
+  have e1 : pySub (blockDoc b) "type" = .ok (.str "SOURCE") :=
+    pySub_block b _ _ (by simp [dumpComp, List.lookup, hk, Kind.ctype, CType.name])
+  have e2 : pySub (blockDoc b) "params" = .ok (.dict b.root.comp.params) :=
+    pySub_block b _ _ (by simp [dumpComp, List.lookup])
+  have e3 : pySub (blockDoc b) "childs" = .ok (childsDoc b.childs) :=
+    pySub_block b _ _ (by simp [dumpComp, List.lookup])
+  have e4 : blockLimits (blockDoc b) = [("limits", applims b.root.comp)] := by
+    simp [blockLimits, blockDoc, dumpComp, List.lookup]
+  have e5 : getMand (PV.dict b.root.comp.params) "vo" = .ok vo := getMand_dict_some _ _ _ (by simp [hp, List.lookup])
+  have e6 : getOpt (PV.dict b.root.comp.params) "rs" (.float 0) = .ok rs := by
+    rw [getOpt_dict]; simp [hp, List.lookup]
+  have hroot : (rl b.root) = { comp := reloaded b.root.comp, parents := [] } := by
+    simp [rl, h.noParents]
+  have hload : loadRoot (seen.map rl) first b.root.name (blockDoc b) = .ok ((seen ++ [b.root]).map rl) := by
+    simp only [loadRoot, e1, e2, e4, e5, e6, ex_bind_ok, bind, Except.bind, pure, Except.pure, if_true]
+    have hmk' : mkComp .source b.root.name [("vo", vo), ("rs", rs), ("limits", applims b.root.comp)] =
+        .ok (reloaded b.root.comp) := hmk
+    cases first with
+    | true =>
+      have := hf rfl
+      subst this
+      simp [hmk', hroot]
+    | false =>
+      simp [hmk', nameTaken_fresh seen _ h.fresh h.named, hroot]
+  have key := loadChilds_ok _ _ h.keys h.entries
+  rw [childsDoc_eq _ h.keys] at key e3
+  simp only [loadBlock, hload, e3, ex_bind_ok, bind, Except.bind]
+  have hfin : (seen ++ [b.root] ++ b.childs.flatMap (·.2)) = seen ++ b.root :: b.childs.flatMap (·.2) := by simp
+  rw [hfin] at key
+  cases hd : entriesDoc b.childs with
+  | nil =>
+    rw [hd] at key
+    simpa [loadChilds, List.foldlM, pure, Except.pure] using key
+  | cons e rest =>
+    rw [hd] at key
+    exact key
+
+theorem accepts_of_not_load (k : Kind) (c : CType) (h : k.ctype ≠ .LOAD) (hc : c ≠ .SOURCE) :
+    k.acceptsChild c = true := by
+  cases k <;> simp_all [Kind.acceptsChild, Kind.ctype]
+
+theorem mapM_strOf (l : List String) : (l.map (PV.str : String → PV α)).mapM strOf = .ok l := by
+  induction l with
+  | nil => rfl
+  | cons a rest ih => simp [List.mapM_cons, strOf, ih, bind, Except.bind, pure, Except.pure]
+
+theorem hasDup_nodup (l : List String) (h : l.Nodup) : hasDup l = false := by
+  induction l with
+  | nil => rfl
+  | cons a rest ih =>
+    simp only [List.nodup_cons] at h
+    simp [hasDup, h.1, ih h.2]
+
+theorem resolve_all (seen : List (Node α)) (ps : List String) (h : ∀ p ∈ ps, ∃ pn ∈ seen, pn.name = p) :
+    ∃ found : List (Node α), ps.mapM (resolveParent (seen.map rl)) = .ok (found.map rl) ∧
+      found.map Node.name = ps ∧ ∀ x ∈ found, x ∈ seen := by
+  induction ps with
+  | nil => exact ⟨[], rfl, rfl, by simp⟩
+  | cons p rest ih =>
+    obtain ⟨found, hm, hn, hs⟩ := ih (fun q hq => h q (by simp [hq]))
+    obtain ⟨pn, hpn, hpp, hfind⟩ := find_parent seen p (h p (by simp))
+    refine ⟨pn :: found, ?_, by simp [hpp, hn], ?_⟩
+    · simp [List.mapM_cons, resolveParent, hfind, hm, bind, Except.bind, pure, Except.pure]
+    · intro x hx
+      rcases List.mem_cons.mp hx with e | hr
+      · subst e; exact hpn
+      · exact hs x hr
+
+theorem loadBlock_mux (seen : List (Node α)) (b : Block α) (h : MuxBlockOK seen b) :
+    loadBlock (seen.map rl) false b.root.name (blockDoc b) =
+      .ok ((seen ++ b.root :: b.childs.flatMap (·.2)).map rl) := by
+  obtain ⟨a, hb⟩ := h.built
+  rw [h.isPMux] at hb
+  obtain ⟨rs, ig, iis, rt, hp, hk, hname, hmk⟩ := reload_pmux _ a _ hb
+  have hmux := h.isMux
+  have e1 : pySub (blockDoc b) "type" = .ok (.str "PMUX") :=
+    pySub_block b _ _ (by simp [dumpComp, List.lookup, hk, Kind.ctype, CType.name])
+  have e2 : pySub (blockDoc b) "params" = .ok (.dict b.root.comp.params) :=
+    pySub_block b _ _ (by simp [dumpComp, List.lookup])
+  have e3 : pySub (blockDoc b) "childs" = .ok (childsDoc b.childs) :=
+    pySub_block b _ _ (by simp [dumpComp, List.lookup])
+  have e7 : pySub (blockDoc b) "parents" = .ok (.list (b.root.parents.map PV.str)) :=
+    pySub_block b _ _ (by simp [dumpComp, List.lookup, hmux])
+  have e4 : blockLimits (blockDoc b) = [("limits", applims b.root.comp)] := by
+    simp [blockLimits, blockDoc, dumpComp, List.lookup]
+  have g1 : getOpt (PV.dict b.root.comp.params) "rs" (.float 0) = .ok rs := by
+    rw [getOpt_dict]; simp [hp, List.lookup]
+  have g2 : getOpt (PV.dict b.root.comp.params) "ig" (.float 0) = .ok ig := by
+    rw [getOpt_dict]; simp [hp, List.lookup]
+  have g3 : getOpt (PV.dict b.root.comp.params) "iis" (.float 0) = .ok iis := by
+    rw [getOpt_dict]; simp [hp, List.lookup]
+  have g4 : getOpt (PV.dict b.root.comp.params) "rt" (.float 0) = .ok rt := by
+    rw [getOpt_dict]; simp [hp, List.lookup]
+  have hmk' : mkComp .pmux b.root.name [("rs", rs), ("ig", ig), ("iis", iis), ("rt", rt),
+      ("limits", applims b.root.comp)] = .ok (reloaded b.root.comp) := hmk
+  obtain ⟨found, hres, hnames, hmem⟩ := resolve_all seen b.root.parents h.parentsLoaded
+  have hacc : (found.map rl).find? (fun p => !(p.comp.kind.acceptsChild (reloaded b.root.comp).kind.ctype)) = none := by
+    rw [List.find?_eq_none]
+    intro x hx
+    obtain ⟨y, hy, rfl⟩ := List.mem_map.mp hx
+    have hyp : y.name ∈ b.root.parents := by rw [← hnames]; exact List.mem_map_of_mem (f := Node.name) hy
+    have hnl := h.parentsAccept _ hyp y (hmem y hy) rfl
+    have : (reloaded b.root.comp).kind = .pmux := hk
+    simp only [rl_kind, this]
+    rw [accepts_of_not_load _ _ hnl (by simp [Kind.ctype])]
+    simp
+  have hany : (seen.map rl).any (fun n => n.comp.kind.ctype == CType.PMUX) = false := by
+    rw [List.any_eq_false]
+    intro x hx
+    obtain ⟨y, hy, rfl⟩ := List.mem_map.mp hx
+    have := h.onlyMux y hy
+    simp only [rl_kind, beq_iff_eq]
+    exact fun e => this ((ctype_pmux_iff _).mp e)
+  have hpn : (found.map rl).map Node.name = b.root.parents := by rw [map_rl_names, hnames]
+  have hroot : rl b.root = { comp := reloaded b.root.comp, parents := (found.map rl).map Node.name } := by
+    rw [hpn]; rfl
+  have hk' : ((reloaded b.root.comp).kind.ctype != CType.PMUX) = false := by
+    have : (reloaded b.root.comp).kind = .pmux := hk
+    rw [this]; rfl
+  have hk'' : ((reloaded b.root.comp).kind.ctype == CType.PMUX) = true := by
+    have : (reloaded b.root.comp).kind = .pmux := hk
+    rw [this]; rfl
+  have hnt : nameTaken (seen.map rl) (reloaded b.root.comp).name = false :=
+    nameTaken_fresh seen _ h.fresh h.named
+  have hadd : addComp (seen.map rl) b.root.parents true (reloaded b.root.comp) = .ok ((seen ++ [b.root]).map rl) := by
+    have hne : b.root.parents.isEmpty = false := by
+      cases hp' : b.root.parents with
+      | nil => exact absurd hp' h.parentsNonempty
+      | cons _ _ => rfl
+    unfold addComp
+    simp only [Bool.true_and, hne, hasDup_nodup _ h.parentsNodup, hk', Bool.false_eq_true, if_false, hres, ex_bind_ok,
+      hnt, hacc, hk'', hany, Bool.and_false, ex_pure, bind, Except.bind, pure, Except.pure]
+    rw [List.map_append, List.map_singleton, hroot]
+  have hload : loadRoot (seen.map rl) false b.root.name (blockDoc b) = .ok ((seen ++ [b.root]).map rl) := by
+    simp only [loadRoot, e1, e2, e4, e7, g1, g2, g3, g4, ex_bind_ok, bind, Except.bind, pure, Except.pure]
+    simp only [Bool.false_eq_true, if_false, List.cons_append, List.nil_append, hmk', mapM_strOf]
+    exact hadd
+  have key := loadChilds_ok _ _ h.keys h.entries
+  rw [childsDoc_eq _ h.keys] at key e3
+  simp only [loadBlock, hload, e3, ex_bind_ok, bind, Except.bind]
+  have hfin : (seen ++ [b.root] ++ b.childs.flatMap (·.2)) = seen ++ b.root :: b.childs.flatMap (·.2) := by simp
+  rw [hfin] at key
+  cases hd : entriesDoc b.childs with
+  | nil =>
+    rw [hd] at key
+    simpa [loadChilds, List.foldlM, pure, Except.pure] using key
+  | cons e rest =>
+    rw [hd] at key
+    exact key
+
+/-! ### the whole layout -/
+
+def Block.nodes (b : Block α) : List (Node α) := b.root :: b.childs.flatMap (·.2)
+
+def flatLayout (L : List (Block α)) : List (Node α) := L.flatMap Block.nodes
+
+/-- every block is loadable after the blocks before it (`seen` = the nodes loaded so far) -/
+def LayoutOK : List (Node α) → List (Block α) → Prop
+  | _, [] => True
+  | seen, b :: rest =>
+    (if b.isMux then MuxBlockOK seen b else SourceBlockOK seen b) ∧ LayoutOK (seen ++ b.nodes) rest
+
+def layoutDoc (L : List (Block α)) : List (String × PV α) := L.map fun b => (b.root.name, blockDoc b)
+
+theorem loadBlocks_ok (seen : List (Node α)) (L : List (Block α)) (first : Bool)
+    (hf : first = true → seen = []) (hhead : first = true → ∀ b, L.head? = some b → b.isMux = false)
+    (h : LayoutOK seen L) :
+    loadBlocks (seen.map rl) first (layoutDoc L) = .ok ((seen ++ flatLayout L).map rl) := by
+  induction L generalizing seen first with
+  | nil => simp [layoutDoc, loadBlocks, flatLayout, pure, Except.pure]
+  | cons b rest ih =>
+    obtain ⟨hb, hrest⟩ := h
+    have hstep : loadBlock (seen.map rl) first b.root.name (blockDoc b) = .ok ((seen ++ b.nodes).map rl) := by
+      cases hm : b.isMux with
+      | true =>
+        rw [hm] at hb
+        have hfalse : first = false := by
+          cases first with
+          | false => rfl
+          | true => have := hhead rfl b rfl; rw [hm] at this; cases this
+        subst hfalse
+        exact loadBlock_mux seen b hb
+      | false =>
+        rw [hm] at hb
+        exact loadBlock_source seen b first hf hb
+    simp only [layoutDoc, List.map_cons, loadBlocks, hstep, ex_bind_ok, bind, Except.bind]
+    have := ih (seen ++ b.nodes) false (by simp) (by simp) hrest
+    simp only [layoutDoc] at this
+    rw [this]
+    simp [flatLayout]
+
+theorem layout_roots_fresh (seen : List (Node α)) (L : List (Block α)) (h : LayoutOK seen L) :
+    (L.map fun b => b.root.name).Nodup ∧ ∀ b ∈ L, b.root.name ∉ seen.map Node.name := by
+  induction L generalizing seen with
+  | nil => simp
+  | cons b rest ih =>
+    obtain ⟨hb, hrest⟩ := h
+    obtain ⟨hn, hfr⟩ := ih _ hrest
+    have hbf : b.root.name ∉ seen.map Node.name := by
+      cases hm : b.isMux <;> rw [hm] at hb
+      · exact hb.fresh
+      · exact hb.fresh
+    refine ⟨?_, ?_⟩
+    · simp only [List.map_cons, List.nodup_cons]
+      refine ⟨?_, hn⟩
+      intro hmem
+      obtain ⟨c, hc, hce⟩ := List.mem_map.mp hmem
+      apply hfr c hc
+      rw [hce]
+      simp [Block.nodes, Node.name]
+    · intro c hc
+      rcases List.mem_cons.mp hc with e | hr
+      · subst e; exact hbf
+      · intro hmem
+        apply hfr c hr
+        simp only [List.map_append, List.mem_append]
+        exact Or.inl hmem
+
+/-- the document of a layout whose top-level names are distinct and not `"system"` -/
+theorem docOf_eq (ver : String) (s : SysDesc α) (L : List (Block α)) (hn : (L.map fun b => b.root.name).Nodup)
+    (hres : ∀ b ∈ L, b.root.name ≠ "system") :
+    docOf ver s L = .dict (("system", sysBlock ver s) :: layoutDoc L) := by
+  unfold docOf layoutDoc
+  rw [foldl_dictSet_new L (fun b => b.root.name) blockDoc [("system", sysBlock ver s)] hn]
+  · rfl
+  · intro b hb
+    simpa using hres b hb
+
+theorem backfill_nonempty (r pc : PV α) (h : r ≠ .dict []) : backfill r pc = .ok r := by
+  unfold backfill
+  split
+  · exact absurd rfl h
+  · rfl
+
+/-! ### the executable layout conditions imply the hypothesis of the round-trip theorem -/
+
+theorem hasDupS_false {l : List String} (h : hasDupS l = false) : l.Nodup := by
+  induction l with
+  | nil => exact List.nodup_nil
+  | cons a rest ih =>
+    simp only [hasDupS, Bool.or_eq_false_iff] at h
+    exact List.nodup_cons.mpr ⟨by simpa using h.1, ih h.2⟩
+
+theorem childOKb_sound {seen : List (Node α)} {p : String} {n : Node α} (hb : Built n.comp)
+    (h : childOKb seen p n = true) : ChildOK seen p n := by
+  simp only [childOKb, Bool.and_eq_true, bne_iff_ne, ne_eq, beq_iff_eq, List.any_eq_true, List.all_eq_true,
+    Bool.or_eq_true, Bool.not_eq_true', List.contains_eq_mem, decide_eq_false_iff_not] at h
+  obtain ⟨⟨⟨⟨⟨⟨h1, h2⟩, h3⟩, h4⟩, h5⟩, h6⟩, h7⟩ := h
+  exact { built := hb, notSource := h1, notMux := h2, parents := h3,
+          parentLoaded := by obtain ⟨pn, hm, e⟩ := h4; exact ⟨pn, hm, e⟩,
+          parentAccepts := by
+            intro pn hm e
+            rcases h5 pn hm with h | h
+            · exact absurd e h
+            · exact h,
+          fresh := h6, named := h7 }
+
+theorem childsOKb_sound {seen : List (Node α)} {p : String} {cs : List (Node α)}
+    (hb : ∀ n ∈ cs, Built n.comp) (h : childsOKb seen p cs = true) : ChildsOK seen p cs := by
+  induction cs generalizing seen with
+  | nil => trivial
+  | cons n rest ih =>
+    simp only [childsOKb, Bool.and_eq_true] at h
+    exact ⟨childOKb_sound (hb n (by simp)) h.1, ih (fun m hm => hb m (by simp [hm])) h.2⟩
+
+theorem entriesOKb_sound {seen : List (Node α)} {es : List (String × List (Node α))}
+    (hb : ∀ e ∈ es, ∀ n ∈ e.2, Built n.comp) (h : entriesOKb seen es = true) : EntriesOK seen es := by
+  induction es generalizing seen with
+  | nil => trivial
+  | cons e rest ih =>
+    simp only [entriesOKb, Bool.and_eq_true] at h
+    exact ⟨childsOKb_sound (hb e (by simp)) h.1, ih (fun e' he' => hb e' (by simp [he'])) h.2⟩
+
+theorem blockOKb_sound {seen : List (Node α)} {b : Block α} (hb : ∀ n ∈ b.nodes, Built n.comp)
+    (h : blockOKb seen b = true) : if b.isMux then MuxBlockOK seen b else SourceBlockOK seen b := by
+  simp only [blockOKb, Bool.and_eq_true, Bool.not_eq_true', List.contains_eq_mem, decide_eq_false_iff_not,
+    bne_iff_ne, ne_eq] at h
+  obtain ⟨⟨⟨⟨h1, h2⟩, h3⟩, h4⟩, h5⟩ := h
+  have hroot : Built b.root.comp := hb b.root (by simp [Block.nodes])
+  have hent : EntriesOK (seen ++ [b.root]) b.childs :=
+    entriesOKb_sound (fun e he n hn => hb n (by
+      simp only [Block.nodes, List.mem_cons, List.mem_flatMap]
+      exact Or.inr ⟨e, he, hn⟩)) h4
+  cases hm : b.isMux with
+  | true =>
+    simp only [hm, if_true, Bool.and_eq_true, beq_iff_eq, Bool.not_eq_true', List.all_eq_true, List.any_eq_true,
+      Bool.or_eq_true, bne_iff_ne, ne_eq] at h5 ⊢
+    obtain ⟨⟨⟨⟨k1, k2⟩, k3⟩, k4⟩, k5⟩ := h5
+    exact { built := hroot, isPMux := k1, isMux := hm, fresh := h1, named := h2, keys := hasDupS_false h3,
+            entries := hent,
+            parentsNonempty := by intro e; rw [e] at k2; simp at k2,
+            parentsNodup := hasDupS_false k3,
+            parentsLoaded := fun p hp => by obtain ⟨⟨pn, hq, e⟩, _⟩ := k4 p hp; exact ⟨pn, hq, e⟩,
+            parentsAccept := fun p hp pn hq e => by
+              rcases (k4 p hp).2 pn hq with h | h
+              · exact absurd e h
+              · exact h,
+            onlyMux := k5 }
+  | false =>
+    simp only [hm, Bool.false_eq_true, if_false, Bool.and_eq_true, beq_iff_eq, List.isEmpty_iff] at h5 ⊢
+    exact { built := hroot, isSource := h5.1, notMux := hm, noParents := h5.2, fresh := h1, named := h2,
+            keys := hasDupS_false h3, entries := hent }
+
+theorem layoutOKb_sound {seen : List (Node α)} {L : List (Block α)} (hb : ∀ n ∈ flatLayout L, Built n.comp)
+    (h : layoutOKb seen L = true) : LayoutOK seen L := by
+  induction L generalizing seen with
+  | nil => trivial
+  | cons b rest ih =>
+    simp only [layoutOKb, Bool.and_eq_true] at h
+    refine ⟨blockOKb_sound (fun n hn => hb n (by simp [flatLayout, hn])) h.1, ?_⟩
+    exact ih (fun n hn => hb n (by
+      simp only [flatLayout, List.flatMap_cons, List.mem_append] at hn ⊢
+      exact Or.inr hn)) h.2
 
 end SysLoss
